@@ -13,6 +13,7 @@
 from __future__ import annotations
 
 import copy
+from fractions import Fraction
 import multiprocessing as mp
 import time
 import traceback
@@ -48,6 +49,40 @@ def _one(args):
                 complex_E=(not herm_input) and rng.random() < 0.5, basis=basis,
                 hermitian_terms=herm_input)
             inst["hermitian"] = False
+            if idx % 8 in (5, 6) and not inst.get("large_offset") \
+                    and not any(hermitian.epair(e)[1] != 0 for e in inst["E"]):
+                # fixed stratum: the spectrum far from zero (level spacings 1e-6 of the levels) with the
+                # largest block fully diagonalised (list form)
+                big = max(range(len(inst["sizes"])), key=lambda b: inst["sizes"][b])
+                inst["fdkind"], inst["fd_blocks"], inst["masks"] = "tuple", [big], {}
+                # every OTHER block gets a single level: no kept pair is non-degenerate then, so the
+                # instance lies outside the class of the known finding D1 and every clause is enforced
+                E2 = list(inst["E"])
+                for b in range(len(inst["sizes"])):
+                    st = [i for i in range(inst["d"]) if inst["sub_idx"][i] == b]
+                    if b != big:
+                        for i in st:
+                            E2[i] = E2[st[0]]
+                # ... and the fully diagonalised block holds at least two DIFFERENT levels (power-of-two gaps
+                # to everything it is eliminated against)
+                stb = [i for i in range(inst["d"]) if inst["sub_idx"][i] == big]
+                if len(stb) >= 2 and len({E2[i] for i in stb}) == 1:
+                    others = {hermitian.epair(E2[i])[0] for i in range(inst["d"]) if i not in stb}
+                    base = hermitian.epair(E2[stb[0]])[0]
+
+                    def pow2(x):
+                        x = abs(x)
+                        return x != 0 and x.numerator & (x.numerator - 1) == 0 and x.denominator & (x.denominator - 1) == 0
+
+                    cand = [base + c for c in (4, -4, 2, -2, 8, -8, 1, -1)
+                            if all(pow2(base + c - o) for o in others)]
+                    if not cand:
+                        continue
+                    E2[stb[1]] = cand[0] if not isinstance(E2[stb[1]], tuple) else (cand[0], Fraction(0))
+                inst["E"] = E2
+                hermitian.add_offset(inst)
+                if not hermitian.well_posed(inst) or (inst["vtype"] != "sympy" and not hermitian.dyadic_gaps(inst)):
+                    continue
             if herm_input:
                 # symmetric masks only: the Hermitian mode must accept the same problem
                 for b, m in inst["masks"].items():
